@@ -404,17 +404,73 @@ def outliers(ctx):
                     return False
         return any(x.op == "call" and (func_name(x) or "").endswith("reject_outliers") for x in subterms(t))
 
-    ok_rdm = {}
+    # per-block density matrices: (a) whatever is indexed with a result of reject_outliers is indexed with the mask
+    # (result [1]); (b) when the filtered weights of one reject_outliers call weight a per-block array in a
+    # contraction, that array carries the mask of the same call -- decided on the value graph, names play no role
+    def outer_results(t):
+        """(call, result index) of the outermost reject_outliers results in t (arguments of such a call are not searched:
+        the second filter is applied to the output of the first)"""
+        out, stack, seen_ = [], [t], set()
+        while stack:
+            x = stack.pop()
+            if x.uid in seen_:
+                continue
+            seen_.add(x.uid)
+            if x.op == "getitem" and x.args[0].op == "call" and (func_name(x.args[0]) or "").endswith("reject_outliers") \
+                    and x.args[1].op == "const":
+                out.append((x.args[0], x.args[1].args[0]))
+                continue
+            if x.op == "call" and (func_name(x) or "").endswith("reject_outliers"):
+                continue
+            stack.extend(a_ for a_ in x.args if hasattr(a_, "op"))
+        return out
+
+    def ro_parts(t, which):
+        return [c_ for c_, k_ in outer_results(t) if k_ == which]
+
+    masked_ok, n_masked = True, 0
+    pair_ok, n_pairs = True, 0
+    seen_terms = set()
     for e in dev.events:
-        if e.kind == "assign" and e.data[0] in ("global_block_rdm1s", "global_block_rdm2s"):
-            v = strip_wrappers(e.data[1])
-            if v.op == "getitem" and any(True for _ in [0]):
-                idx = v.args[1]
-                if idx.op not in ("const", "slice", "tuple"):
-                    ok_rdm.setdefault(e.data[0], []).append(only_masks(idx))
+        vals = [e.data[1]] if e.kind == "assign" else ([e.data] if e.kind == "call" else [])
+        for val in vals:
+            for x in subterms(val):
+                if x.uid in seen_terms:
+                    continue
+                seen_terms.add(x.uid)
+                if x.op == "getitem" and x.args[1].op not in ("const", "slice", "tuple"):
+                    res_ = outer_results(x.args[1])
+                    if res_:
+                        n_masked += 1
+                        masked_ok = masked_ok and all(k_ == 1 for _, k_ in res_)
+                if x.op == "call" and (func_name(x) or "").split(".")[-1] in ("stack", "column_stack", "vstack") and \
+                        call_parts(x)[1] and call_parts(x)[1][0].op in ("tuple", "list"):
+                    elems = list(call_parts(x)[1][0].args)
+                    for wt in elems:
+                        src = ro_parts(wt, 0)
+                        if src and not ro_parts(wt, 1):
+                            for arr in elems:
+                                a0 = strip_wrappers(arr)
+                                is_col = a0.op == "getitem" and a0.args[1].op == "tuple" and \
+                                    strip_wrappers(a0.args[0]).op == "getitem" and \
+                                    any(strip_wrappers(a0.args[0]).args[0] is c_ for c_ in src)
+                                if arr is wt or is_col:
+                                    continue
+                                n_pairs += 1
+                                pair_ok = pair_ok and any(m_ in src for m_ in ro_parts(arr, 1))
+                if x.op == "call" and (func_name(x) or "").endswith("einsum"):
+                    ops = call_parts(x)[1][1:]
+                    if len(ops) == 2:
+                        for wt, arr in ((ops[0], ops[1]), (ops[1], ops[0])):
+                            src = ro_parts(wt, 0)
+                            if src and not ro_parts(wt, 1):
+                                n_pairs += 1
+                                masks = ro_parts(arr, 1)
+                                pair_ok = pair_ok and any(m_ is src[0] or m_ in src for m_ in masks)
     ctx.ob("PAIR-4", "driver.afqmc: per-block density matrices are filtered with the mask reject_outliers returned",
-           bool(ok_rdm.get("global_block_rdm1s")) and all(all(v) for v in ok_rdm.values()) and
-           "global_block_rdm2s" in ok_rdm, f"{ {k: v for k, v in ok_rdm.items()} }", drv)
+           masked_ok and n_masked >= 2 and pair_ok and n_pairs >= 2,
+           f"{n_masked} arrays indexed by a reject_outliers result (all by the mask: {masked_ok}); {n_pairs} weighted "
+           f"averages pair filtered weights with arrays masked by the same call: {pair_ok}", drv)
     # which column
     first_two = sorted(calls, key=lambda t: dev.line_of.get(t.uid, 0))[:2]
     cols = []
